@@ -41,9 +41,23 @@ Definition clean_end (c : cfg) (s : state) : Prop :=
 Definition stuck (f : facts) (c : cfg) (s : state) : Prop :=
   final s = false /\ forall a, step f c s a = None.
 
+(* some actor can take a step *)
+Definition can_move (f : facts) (c : cfg) (s : state) : Prop :=
+  exists a, enabledb f c s a = true.
+
 (* from here run() can never finish, whatever the scheduler does *)
 Definition doomed (f : facts) (c : cfg) (s : state) : Prop :=
   forall sched, final (run f c sched s) = false.
+
+(* number of schedule entries at which the scheduled actor actually moved *)
+Fixpoint moves (f : facts) (c : cfg) (sched : list actor) (s : state) : nat :=
+  match sched with
+  | [] => 0
+  | a :: r => match step f c s a with
+              | Some s' => S (moves f c r s')
+              | None => moves f c r s
+              end
+  end.
 
 (* class run() raises for a task exception e injected by plan p *)
 Definition expected_class (f : facts) (c : cfg) (p : plan) (e : exc) : exc :=
